@@ -177,7 +177,7 @@ def cut_scope_grammar(rng):
     inner = ('choice', [option(i == n - 1) for i in range(n)])
     wrap = rng.choice(['group', 'group', 'opt', 'rep', 'named', 'skipgroup', 'posrep', 'posjoin', 'plain-group', 'named-plain-group',
                        'look-cut', 'neglook-cut', 'skipto-cut', 'cut-then-nested', 'rep-cut-neglook', 'posrep-cut-neglook', 'join-cut-neglook',
-                       'rep-cut-rulefail'])
+                       'rep-cut-rulefail', 'whole-option-choice', 'whole-option-choice'])
     t1, t2 = rng.choice(toks), rng.choice(toks)
     cutseq = rng.choice([('seq', [('tok', t1), 'cut', ('tok', t2)]), ('seq', [('tok', t1), 'cut']), ('seq', [('group', ('seq', [('tok', t1), 'cut'])), ('tok', t2)])])
     inner_e = {'group': ('group', inner), 'opt': ('opt', inner), 'rep': ('rep', False, None, False, inner),
@@ -193,7 +193,7 @@ def cut_scope_grammar(rng):
                # a cut, then a nested construct that succeeds, then a failure: the commit must survive the nested scope
                'cut-then-nested': ('seq', [('tok', t1), 'cut', rng.choice([('opt', ('tok', t2)), ('rep', False, None, False, ('tok', t2)),
                                                                            ('group', ('choice', [('tok', t2), ('tok', 'y')]))])])}.get(wrap)
-    alt1 = ('seq', [inner_e, ('tok', 'x'), 'eof'])
+    alt1 = ('seq', [inner_e if inner_e is not None else ('tok', 'x'), ('tok', 'x'), 'eof'])
     extra_texts, extra_rules = [], []
     if wrap in ('rep-cut-neglook', 'posrep-cut-neglook', 'join-cut-neglook', 'rep-cut-rulefail'):
         # a LATER iteration passes a cut and then fails - by a negative lookahead, or inside a called rule - where the text
@@ -209,6 +209,11 @@ def cut_scope_grammar(rng):
         alt1 = ('seq', [inner_e, ('opt', ('tok', ',')), ('tok', t1), ('tok', t2), 'eof'])
         extra_texts = [f'{t1} {t3} {t1} {t2}', f'{t1} {t3} , {t1} {t2}', f'{t1} {t3} {t1} {t3} {t1} {t2}', f'{t1} {t2}', f'{t1} {t3} {t1} {t3}']
     alts = [alt1]
+    if wrap == 'whole-option-choice':
+        # the WHOLE option is the parenthesised choice (a | (b ~ c | d) | e): its cuts still stay inside the parentheses
+        inner_e = rng.choice([('group', inner), ('group', ('group', inner)), inner])
+        alts = [inner_e]
+        extra_texts = ['x']
     for _ in range(rng.randint(1, 2)):
         alts.append(('seq', [('tok', rng.choice(toks)), ('tok', rng.choice(['y', 'x', 'a'])), 'eof']))
     if rng.random() < 0.3:
@@ -219,7 +224,7 @@ def cut_scope_grammar(rng):
     words = toks + ['x', 'y']
     # every text of one or two words (what is needed to commit in the inner scope and fail right after it), and some longer ones
     texts = set(words) | {f'{a} {b}' for a in words for b in words} | {' '.join(rng.choice(words) for _ in range(3)) for _ in range(8)}
-    if extra_texts:
+    if extra_texts and wrap != 'whole-option-choice':
         texts = set(list(sorted(texts))[::3]) | set(extra_texts)
     return g, sorted(texts)
 
